@@ -26,8 +26,9 @@ InnerB == TTable(WId(9), <<TEntry(WId(2), TRUE, U16), TEntry(WId(1), TRUE, TStr(
 EntryPool == <<
   [id |-> WId(0),   alts |-> <<U8>>],
   [id |-> WId(1),   alts |-> <<TStr(1)>>],
-  [id |-> WId(5),   alts |-> <<TVec(U16), TArr(U16, 2)>>],     \* vector <-> array of the same element
-  [id |-> WId(200), alts |-> <<InnerA, InnerB>>]                \* nested table, itself in two versions
+  \* (ids are 64-bit: two of them lie above 2^32 and 2^63, with the same low byte as a small id would have)
+  [id |-> <<5, 0, 0, 0, 1, 0, 0, 0>>,   alts |-> <<TVec(U16), TArr(U16, 2)>>],     \* 2^32 + 5: vector <-> array of the same element
+  [id |-> <<1, 0, 0, 0, 0, 0, 0, 128>>, alts |-> <<InnerA, InnerB>>]                \* 2^63 + 1: nested table, itself in two versions
 >>
 NE == Len(EntryPool)
 TableHashW == <<52, 18, 0, 0, 0, 0, 0, 0>>     \* 0x1234, never changes
